@@ -316,7 +316,7 @@ REG.contract('Buffer.ingest_data_stream', world=BW, params={'observation': 'Obse
                                  ('nothing-deposited-yet', c.o.observation.total_data_size.t == 0)],
              yields={0: _ids_y0}, step=_ids_step,
              raises={'RuntimeError': dict(when=lambda c: c.o.observation.status.t == RS('WAITING')),
-                     'ValueError': dict(when=lambda c: c.o.observation.ingest_data_rate.t > hot(c.o.self).max_ingest_data_rate.t, unchanged=False)},
+                     'ValueError': dict(when=lambda c: c.o.observation.ingest_data_rate.t > hot(c.o.self).max_ingest_data_rate.t, unchanged=False, exact=False)},
              modifies=['self.events', 'self.hot.0.current_capacity', 'self.hot.0.observations.stored', 'self.waiting_observation_list',
                        'self.stored_times', 'heap:Observation.total_data_size'],
              props=['C07', 'C13'])
